@@ -164,12 +164,13 @@ pub fn finalize(
     }
     let mut unlisted = 0usize;
     let mut nknown = 0usize;
+    let mut known_hits: BTreeMap<usize, usize> = BTreeMap::new();
     let mut by_sig = serde_json::Map::new();
     let _ = std::fs::create_dir_all(format!("{verif_dir}/replays/{prop}"));
     for (sig, (count, v)) in &groups {
         by_sig.insert(sig.clone(), json!(count));
-        if let Some(k) = known.iter().find(|k| k.property == prop && k.status == "known" && sig_matches(&k.signature, sig)) {
-            println!("KNOWN-FINDING: property={prop} {} [{sig}]", k.what);
+        if let Some(ki) = known.iter().position(|k| k.property == prop && k.status == "known" && sig_matches(&k.signature, sig)) {
+            *known_hits.entry(ki).or_insert(0usize) += 1;
             nknown += 1;
             continue;
         }
@@ -188,6 +189,9 @@ pub fn finalize(
         println!("VIOLATION property={prop} replay={path}");
         println!("  signature: {sig}");
         println!("  what: {}", v.what);
+    }
+    for (ki, n) in &known_hits {
+        println!("KNOWN-FINDING: property={prop} {} [{} call sites / clauses matched {}]", known[*ki].what, n, known[*ki].signature);
     }
     for m in &rep.machinery {
         println!("MACHINERY-ERROR: {m}");
